@@ -42,6 +42,8 @@ class FnSpec:
     raises_ok: bool = False  # reaching `raise` is allowed (paths end, nothing to prove)
     lemmas: list[str] = field(default_factory=list)  # names of lemma groups to import as hypotheses
     timeout_ms: int | None = None
+    shards: int = 1  # obligations of a large function are discharged by this many processes (each re-runs the symbolic execution)
+    strict_inf: bool = False  # every +, -, * on reals must have operands other than +-inf (obligation `inf-arith`): no inf - inf / nan
 
     @property
     def key(self):
